@@ -114,8 +114,12 @@ def doc_tags(lang, data):
     return tags
 
 
+FIXED = set()
+LIFTED = FIXED | set(filter(None, os.environ.get('VERIF_C10_LIFT', '').split(',')))       # trial runs against a patched tree
+
+
 def excluded(api, tags):
-    return [t for t in tags if t != 'KA' or api == 'Bytes']
+    return [t for t in tags if (t != 'KA' or api == 'Bytes') and t not in LIFTED]
 
 
 def render_seeds():
